@@ -64,11 +64,23 @@ func genLeaf(t *rapid.T, k int) MSpec {
 }
 
 func genMatcher(t *rapid.T, depth int) MSpec {
+	if depth == 0 && rapid.IntRange(0, 9).Draw(t, "template") == 0 {
+		// And(set n, Or(And(set n again, X), Y)): when X rejects, the inner And must give n its earlier value back
+		name := rapid.SampledFrom([]string{"ver", "v"}).Draw(t, "tname")
+		setter := func(label string) MSpec {
+			if rapid.Bool().Draw(t, label) {
+				return MSpec{Kind: "pathver", Args: rapid.SampledFrom(verSets).Draw(t, label+"V"), Param: name}
+			}
+			return MSpec{Kind: "headerver", Args: rapid.SampledFrom(verSets).Draw(t, label+"V"), Param: name}
+		}
+		return MSpec{Kind: "and", Subs: []MSpec{setter("s1"), {Kind: "or", Subs: []MSpec{
+			{Kind: "and", Subs: []MSpec{setter("s2"), genLeaf(t, 7)}}, genLeaf(t, 8)}}}}
+	}
 	k := rapid.IntRange(0, 9).Draw(t, "mkind")
 	switch {
 	case k == 0 && depth == 0: // a nil matcher only exists at the Add / New level
 		return MSpec{Kind: "nil"}
-	case k < 4 || depth >= 2:
+	case k < 4 || depth >= 3:
 		return genLeaf(t, depth*10)
 	default:
 		kind := "and"
@@ -77,7 +89,7 @@ func genMatcher(t *rapid.T, depth int) MSpec {
 		}
 		m := MSpec{Kind: kind}
 		for i, n := 0, rapid.IntRange(2, 3).Draw(t, "nsubs"); i < n; i++ {
-			if depth < 1 && rapid.IntRange(0, 3).Draw(t, "nest") == 0 {
+			if depth < 2 && rapid.IntRange(0, 3).Draw(t, "nest") == 0 {
 				m.Subs = append(m.Subs, genMatcher(t, depth+1))
 			} else {
 				m.Subs = append(m.Subs, genLeaf(t, depth*10+i+1))
